@@ -8,4 +8,5 @@ import (
 )
 
 // built with the minimal observer set (the curve graft does not fit this tree): API level only
-func internalTriples(run func(string, func() bool), sa, sb *scalar.Scalar, A, C *curve.EdwardsPoint) {}
+func internalTriples(run func(string, func() bool), sa, sb *scalar.Scalar, A, C *curve.EdwardsPoint) {
+}
